@@ -23,7 +23,7 @@ RULE = ("sum-product IR programs over 1-5 distinct leaf tensors and 4 variables 
         "at every point. Non-trivial: >=2 leaves, adjoint compared at >=2 points; distinct by (semiring, IR hash, route)")
 ASSUMPTIONS = ["fv/refsem.py values; derivative by the product rule in this module", "adjoints may omit inputs they do not depend on; comparison is pointwise over the leaf's and root's inputs"]
 MIN_NONTRIVIAL = {"quick": 250, "thorough": 3000}
-REQUIRED_COUNTERS = ["forward:ok", "adjoint:ok", "route:optimizer:adjoint-ok", "leaf-feature:renamed", "leaf-feature:sliced", "leaf-feature:cat", "leaf-feature:indexed", "leaf-feature:twice"]
+REQUIRED_COUNTERS = ["forward:ok", "adjoint:ok", "route:direct:adjoint-ok", "route:optimizer:adjoint-ok", "leaf-feature:renamed", "leaf-feature:sliced", "leaf-feature:cat", "leaf-feature:indexed", "leaf-feature:twice"]
 
 NAMES = {"i": 2, "j": 3, "k": 2, "l": 3}
 SEMIRINGS = [("add", "mul"), ("logaddexp", "add")]
